@@ -18,7 +18,7 @@
    the budget hypothesis (fuel + 1) * l <= 65535 is the u16 kappa of the crate (see C03). *)
 Require Import List ZArith. Import ListNotations.
 Require Import F204.Base.Util F204.Base.Mach F204.Gen.Params F204.Gen.Oids F204.Hash.HashIface F204.Impl.Encodings F204.Impl.MlDsa F204.Impl.Api
-  F204.Spec.SpecConv F204.Spec.SpecRound F204.Proofs.KernelLemmas F204.Proofs.DeriveRefine F204.Proofs.Completeness.
+  F204.Spec.SpecConv F204.Spec.SpecRound F204.Proofs.KernelLemmas F204.Proofs.DeriveRefine F204.Proofs.Completeness F204.Proofs.Witness.
 Require Import F204.Proofs.RealHashes.
 Open Scope Z_scope.
 
@@ -58,9 +58,15 @@ Proof. intros. unfold UseHint, HighBits. destruct (Decompose g r). reflexivity. 
 Theorem C01_usehint_one_moves : forall g r, g = 95232 \/ g = 261888 -> UseHint g 1 r <> UseHint g 0 r.
 Proof. exact UseHint_flip. Qed.
 
+(* non-vacuity of the remaining hypotheses: for the executable hash models, ML-DSA-44, a fixed seed, message,
+   context and rnd, the model's key generation returns Ok, signing returns Ok sig and verification returns
+   Ok true (pure and HashML-DSA/SHA-256) - evaluated by vm_compute inside Coq (Proofs/Witness.v) *)
+Example C01_hypotheses_satisfiable : Witness.run_witness P44 = true.
+Proof. exact Witness.witness_44. Qed.
 (* non-vacuity of the hash hypothesis (see Proofs/RealHashes.v) *)
 Definition C01_for_the_executed_model := C01_sign_then_verify real_hashes real_hashes_laws.
 
+Print Assumptions C01_hypotheses_satisfiable.
 Print Assumptions C01_sign_then_verify.
 Print Assumptions C01_hash_sign_then_verify.
 Print Assumptions C01_internal_sign_then_verify.
